@@ -212,10 +212,21 @@ def run_suite(suite, tier, seed, extra=None, replay=None, timeout=7200):
     env["GGV_CACHE"] = CACHE
     if tier != "thorough":
         timeout = min(timeout, 2400)
+    # own process group: on a timeout everything the suite started (the tool, go vet and its per-package tool
+    # processes) is killed with it
+    proc = subprocess.Popen(cmd, stdout=subprocess.PIPE, stderr=subprocess.PIPE, text=True, env=env, cwd=VERIF, start_new_session=True)
     try:
-        p = subprocess.run(cmd, stdout=subprocess.PIPE, stderr=subprocess.PIPE, text=True, env=env, timeout=timeout, cwd=VERIF)
+        so, se = proc.communicate(timeout=timeout)
     except subprocess.TimeoutExpired:
+        # the suite is a session leader; the tool runs it starts get process groups of their own inside that session
+        subprocess.run(["pkill", "-9", "-s", str(proc.pid)], stdout=subprocess.DEVNULL, stderr=subprocess.DEVNULL)
+        try:
+            os.killpg(proc.pid, 9)
+        except OSError:
+            pass
+        proc.communicate()
         return None, "suite %s did not terminate within %d s (the analysis, run in-process, hangs or is far too slow)" % (suite, timeout)
+    p = subprocess.CompletedProcess(cmd, proc.returncode, so, se)
     if p.returncode != 0:
         return None, "suite %s exited %d:\n%s" % (suite, p.returncode, (p.stderr or "")[-4000:])
     try:
